@@ -35,7 +35,7 @@ def gen_cases(tier, seed):
     n = 600 if tier == "quick" else 6000
     cases = []
     for i in range(n):
-        cases.append({"kind": "history", "profile": ["mixed", "copy2", "churn", "refuse", "drill"][i % 5], "n_ops": [10, 16, 24][i % 3] if tier == "quick" else [15, 30, 50][i % 3], "gc": ["default", "every", "seeded", "aggressive"][(i // 5) % 4], "refs": ["strong", "refetch", "drop"][(i // 15) % 3]})
+        cases.append({"kind": "history", "profile": ["mixed", "copy2", "churn", "refuse", "drill", "clip"][i % 6], "n_ops": [10, 16, 24][i % 3] if tier == "quick" else [15, 30, 50][i % 3], "gc": ["default", "every", "seeded", "aggressive"][(i // 5) % 4], "refs": ["strong", "refetch", "drop"][(i // 15) % 3]})
     # the same short story on every seed: an object with grouped data is copied to the second workspace after one of its grouped
     # children travelled there alone (the copy must renumber that child; neither file may end up naming a data entity of the other)
     for i in range(8 if tier == "quick" else 40):
@@ -95,6 +95,7 @@ def run_repo_suite(case, rec):
 PROFILES = {
     "mixed": {"mk_deferred": 1.5, "clip": 1.5, "dup_uid": 0.8},
     "copy2": {"copy_out": 4.5, "clip": 2.0, "mk_group": 2.0, "pg_add": 3.5, "copy": 3.0, "mk_object": 3.0, "add_data": 4.0, "pg_add": 2.0, "remove": 1.5},
+    "clip": {"mk_group": 6.0, "mk_object": 5.0, "add_data": 2.0, "clip": 7.0, "move": 1.5, "copy": 0.5, "remove": 0.5, "reopen": 0.5},
     "churn": {"remove": 4.0, "move": 4.0, "copy": 2.0, "reopen": 2.0, "mk_group": 3.0, "listing": 1.5, "gc": 1.5},
     "refuse": {"remove_protected": 2.5, "remove_partial": 2.5, "remove": 2.0, "move": 2.0, "add_data_fail": 1.0, "half_write": 2.5, "mk_deferred": 1.5, "dup_uid": 2.5, "move_data": 2.0, "pg_add": 3.0, "add_data": 5.0},
     "drill": {"mk_object": 2.0, "add_data": 3.0, "remove": 2.0, "copy": 1.5},
@@ -154,7 +155,7 @@ def run_case(case, rec):
         return run_drill(case, rec, rng)
     if case["profile"] == "repo-suite":
         return run_repo_suite(case, rec)
-    eng = hist.Engine(rec, rng, PROP, weights=PROFILES[case["profile"]], monitors=[C02Monitor()], gc_plan=case["gc"], ref_policy=case["refs"], n_ops=case["n_ops"], second_ws=case["profile"] == "copy2", classes=classes, script=[(k, tuple(f) if f else None) for k, f in case.get("script", [])])
+    eng = hist.Engine(rec, rng, PROP, weights=PROFILES[case["profile"]], monitors=[C02Monitor()], gc_plan=case["gc"], ref_policy=case["refs"], n_ops=case["n_ops"], second_ws=case["profile"] in ("copy2", "clip"), classes=classes, script=[(k, tuple(f) if f else None) for k, f in case.get("script", [])])
     eng.force_precopy = bool(case.get("precopy"))
     eng.run()
     rec.shape = [case["profile"], [(o["op"], o.get("cls", "")) for o in eng.log]]
